@@ -70,7 +70,8 @@ def make_checker():
                 if active_both and not (abs(d) <= EPS or abs(d - inc) <= EPS):
                     probs.append((f"C07:delta-not-increment:{name}", f"tick {ob['n']}: {name} advanced by {d}, increment {inc}"))
             dp = tc["Process Time"] - pc["Process Time"]
-            if active_both and dp > EPS and pre != "Running" and post != "Running":
+            # (also over the tick in which a Restart takes the run from Restarting to Stopped: the run was active when it began)
+            if ob["pre_flags"]["started"] and dp > EPS and pre != "Running" and post != "Running":
                 probs.append((f"C07:process-time-advanced:{pre}>{post}", f"tick {ob['n']}: Process Time advanced by {dp} over a tick that was {pre}->{post}"))
             if active_both and inc > EPS and dp <= EPS and pre == "Running" and post == "Running":
                 probs.append(("C07:process-time-stalled-while-running", f"tick {ob['n']}: Running but Process Time did not advance (inc {inc})"))
